@@ -97,8 +97,6 @@ def check(case):
             raise Violation("the anomaliser uses the user's detector object itself instead of a clone")
     if repr(sorted(user_det.get_params(deep=True).items(), key=lambda kv: kv[0])) != params_before:
         raise Violation("the wrapped detector's hyper-parameters were altered", inner=case["inner"])
-    if det.change_detector is not user_det:
-        raise Violation("the anomaliser replaced the user's detector object in its hyper-parameters")
     # reference model
     with sut("clone of the wrapped detector fit/predict"):
         ref_det = user_det.clone().fit(Xc)
